@@ -25,6 +25,15 @@ unfold_base = DispatchedInterpretation()
 unfold = PrioritizedInterpretation(unfold_base, normalize_base, lazy)
 
 
+def _captures(inner_vars, outer_vars, other_terms):
+    if not inner_vars:
+        return False
+    names = frozenset(v.name for v in inner_vars)
+    return any(v.name in names for v in outer_vars) or any(
+        not names.isdisjoint(t.inputs) for t in other_terms
+    )
+
+
 @unfold.register(Contraction, AssociativeOp, AssociativeOp, frozenset, tuple)
 def unfold_contraction_generic_tuple(red_op, bin_op, reduced_vars, terms):
     for i, v in enumerate(terms):
@@ -43,6 +52,11 @@ def unfold_contraction_generic_tuple(red_op, bin_op, reduced_vars, terms):
                 for vt in v.terms
             )
             return Contraction(red_op, v.bin_op, reduced_vars, *new_terms)
+
+        # Hoisting v's reduction out would capture same-named variables that
+        # are free in the other terms or reduced by this contraction.
+        if _captures(v.reduced_vars, reduced_vars, terms[:i] + terms[i + 1 :]):
+            continue
 
         if red_op in (v.red_op, ops.null) and (v.red_op, bin_op) in DISTRIBUTIVE_OPS:
             new_terms = (
